@@ -204,6 +204,8 @@ LEAVES = [
     ("<!--c-->", ("Comment", "", (), "c", ())),
     ("<!---->", ("Comment", "", (), "", ())),
     ("<!DOCTYPE html>", ("Declaration", "", (), "DOCTYPE html", ())),
+    ("<![CDATA[a<b]]>", ("MarkedSection", "", (), "CDATA[a<b", ())),
+    ("<![if IE]>", ("MarkedSection", "", (), "if IE", ())),
     ("<?p q?>", ("Pi", "", (), "p q?", ())),
     ("&#38;", ("Char", "", (), "38", ())),
     ("&#x26;", ("Char", "", (), "x26", ())),
@@ -446,6 +448,33 @@ class TagSoupSystem(System):
         return check_soup(text)
 
 
+MARKED = ["<![", "if", "endif", "else", "CDATA", "cdata", "temp", "include", "ignore", "rcdata", "x", "2", " ", "[", "]", "]>", "]]>", "--", ">", "IE"]
+
+
+class MarkedSoupSystem(TagSoupSystem):
+    """marked sections '<![keyword ...' with known keywords, their prefixes / extensions and every terminator"""
+
+    name = "soup-marked"
+
+    def __init__(self, tier):
+        System.__init__(self, tier)
+        self.n = 4 if tier == "quick" else 5
+        self.description = f"'<![' followed by every sequence of <= {self.n} tokens from {MARKED[1:]} (and the same after text): totality, tree consistency, copy/strip isolation"
+
+    def bounds(self):
+        return {"tokens": self.n, "alphabet_size": len(MARKED)}
+
+    def alphabet(self):
+        return MARKED
+
+    def cases(self):
+        for n in range(0, self.n + 1):
+            for t in itertools.product(MARKED[1:], repeat=n):
+                body = "".join(t)
+                yield "<![" + body
+                yield "a<![" + body + "<b>"
+
+
 PROBES = [t for n in range(1, 3) for t, _ in forests(n, 1)][::6]  # every sixth forest of <= 2 nodes (an enumerated stride, not a sample)
 
 
@@ -507,6 +536,7 @@ def systems(tier):
     out.append(FindSystem(tier))
     out.append(HistorySystem(tier))
     out.append(TagSoupSystem(tier))
+    out.append(MarkedSoupSystem(tier))
     return out
 
 
